@@ -17,15 +17,15 @@ CONSTANTS
   MaxNow = 2
   Shapes = {"ok", "short"}
   LevelKinds = {"node", "module", "param"}
-  Kinds = {"updateEvent", "updateItem"}
+  Kinds = {"updateEvent"}
   Behs = {"ok", "oneshot", "raise"}
   InitDescs <- GenInit
   Descs <- GenInit
   GIdents <- GIdentsC
   GActions = {"update", "error_update"}
   GLevels <- GLevelsC
-  EmitOneIn = 1
-  MaxCbs = 4
+  EmitOneIn = 3
+  MaxCbs = 3
   MaxWait = 1
   Depth = 4
 CONSTRAINT GBound
